@@ -77,6 +77,10 @@ func genAll(P *Program, only string) ([]*VC, []string) {
 		if only != "" && !strings.Contains(k, only) {
 			continue
 		}
+		if fc.Opts["assumed"] != "" {
+			P.assumed = append(P.assumed, k)
+			continue
+		}
 		vc := newVC(P, fn, fc)
 		if err := vc.generate(); err != nil {
 			errs = append(errs, err.Error())
@@ -329,6 +333,9 @@ func cmdCheck(args []string) int {
 			for k := range vc.usedExt {
 				trusted["assumed contract: "+k] = true
 			}
+		}
+		for _, k := range P.assumed {
+			trusted["contract assumed, not yet verified: "+k] = true
 		}
 		trusted["govc VC generator (unverified; guarded by cover obligations and the must-fail corpus)"] = true
 		trusted["solvers z3-new 5.1.0, z3 4.8.12, cvc5 1.0.3"] = true
